@@ -37,3 +37,32 @@ Qed.
 Theorem manager_quorum_counts_at_most_ha ha db dcs :
   let '(w, v) := quorum_counts ha db dcs 0 0 in 0 <= v <= w /\ w <= Z.of_nat (length ha).
 Proof. pose proof (quorum_counts_bounds ha db dcs 0 0 ltac:(lia)) as H. destruct (quorum_counts ha db dcs 0 0). lia. Qed.
+
+(* ---- the HA counts of util.go (quorum of alive replicas in the list, "every other HA node still replicates", the
+   dubious hosts): an entry that says "cascade replica" contributes nothing to any of them *)
+From Mysync Require Import Base.Config Procs.NodeOps Procs.Switchover Procs.Repair Procs.Manager.
+
+Lemma cascade_not_counted_within h nodes cs ns :
+  assoc h cs = Some ns -> ns_is_cascade ns = true ->
+  count_alive_ha_slaves_within (h :: nodes) cs = count_alive_ha_slaves_within nodes cs.
+Proof.
+  intros Ha Hc. unfold count_alive_ha_slaves_within. cbn [filter]. rewrite Ha, Hc. rewrite andb_false_r. reflexivity.
+Qed.
+Lemma cascade_not_counted_ha h ns cs : ns_is_cascade ns = true -> count_ha_nodes ((h, ns) :: cs) = count_ha_nodes cs.
+Proof. intros Hc. unfold count_ha_nodes. cbn [filter]. rewrite Hc. reflexivity. Qed.
+Lemma cascade_not_counted_running h ns cs : ns_is_cascade ns = true -> count_running_ha_slaves ((h, ns) :: cs) = count_running_ha_slaves cs.
+Proof. intros Hc. unfold count_running_ha_slaves. cbn [filter]. rewrite Hc. rewrite andb_false_r. reflexivity. Qed.
+Lemma cascade_not_dubious h ns cs : ns_is_cascade ns = true -> dubious_ha_hosts ((h, ns) :: cs) = dubious_ha_hosts cs.
+Proof. intros Hc. unfold dubious_ha_hosts. cbn [filter]. rewrite Hc. rewrite andb_false_r. reflexivity. Qed.
+
+Theorem cascade_entries_contribute_nothing h ns cs nodes :
+  ns_is_cascade ns = true ->
+  count_ha_nodes ((h, ns) :: cs) = count_ha_nodes cs /\
+  count_running_ha_slaves ((h, ns) :: cs) = count_running_ha_slaves cs /\
+  dubious_ha_hosts ((h, ns) :: cs) = dubious_ha_hosts cs /\
+  count_alive_ha_slaves_within (h :: nodes) ((h, ns) :: cs) = count_alive_ha_slaves_within nodes ((h, ns) :: cs).
+Proof.
+  intros Hc. split; [apply cascade_not_counted_ha; exact Hc|]. split; [apply cascade_not_counted_running; exact Hc|].
+  split; [apply cascade_not_dubious; exact Hc|]. apply (cascade_not_counted_within h nodes _ ns); [|exact Hc].
+  cbn [assoc]. rewrite N.eqb_refl. reflexivity.
+Qed.
